@@ -175,6 +175,11 @@ class Model:
         els = spec['elements']
         self.names = names or [f"{e['k']}{i}" for i, e in enumerate(els)]
         self.elements = [make_element(e, n) for e, n in zip(els, self.names)]
+        # relations declared (and later overridden) before the chain itself: a history of re-declarations
+        self.spares = [make_element(e, f"spare{i}") for i, e in enumerate(spec.get('spares', []))]
+        everything = self.elements + self.spares
+        for i, j, link in spec.get('pre_links', []):
+            declare(everything[i], everything[j], link)
         for i, link in enumerate(spec['links']):
             declare(self.elements[i], self.elements[i + 1], link)
         self.load_calls = []
